@@ -118,7 +118,7 @@ def gen_cfg(rng, max_vars=4, max_terms=3, max_prods=7, max_body=4, profile=None,
 MIXED = {"a": 1, "b": "b", "c": 2.5, "zz": "zz"}
 BININT = {"a": 0, "b": 1, "c": 2, "zz": 9}        # small ints: the binary alphabet 0 / 1 (token ids)
 TUPLES = {"a": (0, "x"), "b": (), "c": (1, 2, 3), "zz": ("zz",)}      # letters of a product alphabet
-TERM_MAPS = {"mixed": MIXED, "binint": BININT, "tup": TUPLES}
+TERM_MAPS = {"mixed": MIXED, "binint": BININT, "tup": TUPLES, "ig": {"a": 1, "b": 2}}
 
 
 def val(case, name):
@@ -170,16 +170,24 @@ def ref_of(case):
 def build(case):
     from pyformlang.cfg import CFG, Variable, Terminal, Production
     ps = []
-    for h, b in case["prods"]:
+    mine = []
+    for i, (h, b) in enumerate(case["prods"]):
         body = [Variable(val(case, x)) if is_var_name(case, x) else Terminal(val(case, x)) for x in b]
-        ps.append(Production(Variable(val(case, h)), body))
+        # the caller's own body list (emptied below, once the grammar is built), or a tuple
+        ps.append(Production(Variable(val(case, h)), tuple(body) if (case.get("start_raw") and i % 3 == 2) else body))
+        mine.append(body)
     kw = {}
     if case.get("ctor_sets"):
         kw["variables"] = {Variable(val(case, v)) for v in case["vars"]}
         kw["terminals"] = {Terminal(val(case, t)) for t in case["terms"]}
+        mine += list(kw.values())
     start = val(case, case["start"])
     # "start_raw": the start symbol handed over as a plain value (the constructor wraps it), not as a Variable
-    return CFG(start_symbol=start if case.get("start_raw") else Variable(start), productions=set(ps), **kw)
+    cfg = CFG(start_symbol=start if case.get("start_raw") else Variable(start), productions=set(ps), **kw)
+    # the caller goes on using its collections: productions and grammar must have taken copies
+    for coll in mine:
+        coll.clear()
+    return cfg
 
 
 def lib_sym(x):
